@@ -287,8 +287,8 @@ def guard_discharges(ctx):
             e = flow.strip(arg(an, bb, t, 0))
             if e[0] == "agg" and e[1].endswith("ops::Range::Range"):
                 f = dict(e[2])
-                if flow.strip(f["start"]) == ("const", "i32", 0) and flow.strip(f["end"])[0] == "const":
-                    end = flow.strip(f["end"])[2]
+                if int_value(f["start"]) == 0 and int_value(f["end"]) is not None:     # any integer type, literal or named constant
+                    end = int_value(f["end"])
         ok = end is not None and 7 * (end - 1) < width and 7 * (end - 1) >= 0
         why = "shift amount 7·i with i < %s: at most %s < %d" % (end, 7 * (end - 1) if end else "?", width)
         out[(k, "assert", "Overflow(Shl)")] = (ok, why)
